@@ -11,7 +11,7 @@ use super::payload::{Registry, decode, make_sample};
 use rustrtc::media::error::MediaError;
 use rustrtc::media::frame::MediaKind;
 use rustrtc::media::frame::MediaSample;
-use rustrtc::media::pipeline::{SampleQueueReceiver, SampleQueueSender};
+use rustrtc::media::pipeline::{ChannelMediaSource, MediaSource, SampleQueueReceiver, SampleQueueSender};
 use rustrtc::media::spsc::SpscRing;
 use rustrtc::media::track::{MediaStreamTrack, SampleStreamSource, SampleStreamTrack};
 use rustrtc::verif_hooks::media as hook;
@@ -145,14 +145,15 @@ fn spawn_worker(tid: Tid, sh: Arc<Shared>) -> Worker {
         }
         let mut src: Option<SampleStreamSource> = None;
         let mut psend: Option<Arc<SampleQueueSender>> = None;
-        let mut precv: Option<SampleQueueReceiver> = None;
+        // the pipeline pair is consumed through its public `MediaSource` wrapper (own `ended` latch)
+        let mut precv: Option<ChannelMediaSource> = None;
         loop {
             let op = match rx_cmd.recv() { Ok(Cmd::Start(op)) => op, Ok(Cmd::Free) => { free.set(true); continue; } _ => break };
             if let Tid::Prod(i) = tid {
                 if src.is_none() { src = sh.mailbox.lock().unwrap()[i].take(); }
                 if let Some(p) = &sh.pipe { if psend.is_none() { psend = p.senders.lock().unwrap()[i].take(); } }
             }
-            if let (Tid::Cons, Some(p)) = (tid, &sh.pipe) { if precv.is_none() { precv = p.receiver.lock().unwrap().take(); } }
+            if let (Tid::Cons, Some(p)) = (tid, &sh.pipe) { if precv.is_none() { precv = p.receiver.lock().unwrap().take().map(|r| ChannelMediaSource::new(Arc::from("verif"), MediaKind::Audio, r)); } }
             let res: String = match (&op, tid) {
                 (Op::Send(vs), Tid::Prod(i)) if sh.pipe.is_some() => {
                     let s = psend.as_ref().expect("producer without sender");
@@ -167,19 +168,19 @@ fn spawn_worker(tid: Tid, sh: Arc<Shared>) -> Worker {
                 (Op::DropSrc, Tid::Prod(_)) if sh.pipe.is_some() => { drop(psend.take()); "dropped".into() }
                 (Op::Recv, Tid::Cons) if sh.pipe.is_some() => {
                     let mut rx = precv.take().expect("receiver already dropped");
-                    let mut fut: Pin<Box<dyn Future<Output = _>>> = Box::pin(async move { let r = rx.recv().await; (rx, r) });
+                    let mut fut: Pin<Box<dyn Future<Output = _>>> = Box::pin(async move { let r = rx.next_sample().await; (rx, r) });
                     let waker = Waker::from(Arc::new(WakeFlag(sh.clone())));
                     let mut cx = Context::from_waker(&waker);
                     loop {
                         match fut.as_mut().poll(&mut cx) {
-                            Poll::Ready((rx, Some(s))) => {
+                            Poll::Ready((rx, Ok(s))) => {
                                 precv = Some(rx);
                                 let d = decode(&s);
                                 let t = match &d { Ok((p, v)) => format!("v{p}.{v}"), Err(_) => "corrupt".into() };
                                 sh.received.lock().unwrap().push(d);
                                 break t;
                             }
-                            Poll::Ready((rx, None)) => { precv = Some(rx); break "eos".into(); }
+                            Poll::Ready((rx, Err(e))) => { precv = Some(rx); break err_text(&e).into(); }
                             Poll::Pending => {
                                 if free.get() { break "abandoned".into(); }
                                 let _ = tx_ev.send(Ev::Pending);
@@ -260,6 +261,8 @@ pub struct Case {
     clone_target: Vec<usize>,
     push_lock: Option<Arc<parking_lot::Mutex<()>>>,
     pub recv_dropped: bool,
+    /// end-of-stream returned (no stop() started before) with samples queued / source not closed
+    pub eos_early: Option<(usize, bool)>,
     /// who is inside the producer-lock / consumer-lock region (tracked from the yield points passed)
     holder_push: Option<Tid>,
     holder_pop: Option<Tid>,
@@ -268,6 +271,8 @@ pub struct Case {
     /// a thread went through a lock that the model (and the real mutex state) says is held
     pub lock_fail: Option<String>,
     pub probes: usize,
+    /// how long a probed thread is given to come back through a held lock
+    pub probe_wait: Duration,
     pub stop_called: bool,
     pub eos_seen: bool,
     pub timeout: bool,
@@ -313,7 +318,7 @@ impl Case {
             (sh, Some(push_lock))
         };
         Case { init, sh, prods: (0..MAX_PROD).map(|_| None).collect(), cons: None, stop: None, handle,
-               clone_target: vec![0; MAX_PROD], push_lock, recv_dropped: false, holder_push: None, holder_pop: None, implicit: vec![], lock_fail: None, probes: 0, stop_called: false, eos_seen: false, timeout: false }
+               clone_target: vec![0; MAX_PROD], push_lock, recv_dropped: false, eos_early: None, holder_push: None, holder_pop: None, implicit: vec![], lock_fail: None, probes: 0, probe_wait: PROBE_WAIT, stop_called: false, eos_seen: false, timeout: false }
     }
 
     fn worker(&mut self, t: Tid) -> &mut Worker {
@@ -425,7 +430,8 @@ impl Case {
         let p = match self.state(t) { WState::Parked(p) => p, _ => return "B".into() };
         self.probes += 1;
         let _ = self.worker(t).tx.send(Cmd::Step);
-        match self.worker(t).rx.recv_timeout(PROBE_WAIT) {
+        let wait = self.probe_wait;
+        match self.worker(t).rx.recv_timeout(wait) {
             Err(_) => { self.worker(t).state = WState::InLock(p); "B".into() }
             Ok(ev) => {
                 let tok = match ev {
@@ -446,7 +452,16 @@ impl Case {
             Ok(Ev::Pending) => { self.worker(t).state = WState::Pending; "P".into() }
             Ok(Ev::Done(r)) => {
                 self.worker(t).state = WState::Idle;
-                if r == "eos" { self.eos_seen = true; }
+                if r == "eos" {
+                    self.eos_seen = true;
+                    // judged at the moment end-of-stream is returned: without a stop() so far it may
+                    // only be returned when every source is gone and nothing is queued any more
+                    if !self.stop_called && self.eos_early.is_none() {
+                        let (cl, _) = self.flags();
+                        let q = self.queue_len();
+                        if q != 0 || !cl { self.eos_early = Some((q, cl)); }
+                    }
+                }
                 if let (Tid::Prod(i), "cloned") = (t, r.as_str()) { let j = self.clone_target[i]; self.handle[j] = 1; }
                 format!("={r}")
             }
